@@ -6,7 +6,7 @@ use maybenot::event::TriggerEvent;
 
 use crate::{
     event_to_usize,
-    queue_event::{EventQueue, Queue},
+    queue_event::{before, EventQueue, Queue},
     SimEvent,
 };
 
@@ -216,7 +216,14 @@ fn peek_non_blocking(
         let bb = queue.peek_bypassable();
         let (n, nq) = queue.peek_non_blocking(network_delay_sum);
 
-        if bb > n {
+        // a base event only happens after the accumulated network delay, so
+        // compare it using that time, not its time in the base trace
+        let bypassable_first = if nq == Queue::Base {
+            bb.is_some() && !before(n, bb, network_delay_sum)
+        } else {
+            bb > n
+        };
+        if bypassable_first {
             (bb, Queue::Bypassable)
         } else {
             (n, nq)
